@@ -123,6 +123,7 @@ def register(R, tier="quick"):
                setup=mk_rev, requires=["self.subscorer.idf > 0"], harness=H, ensures=["s <= bq"],
                note="known finding: the negated bound of the wrapped scorer is a LOWER bound")
 
+    register_stats(R)
     R.contract(S + ":PL2Scorer._score", label="scoring/PL2Scorer-block-bound", props=["C12"],
                setup=mk_scorer("PL2Scorer", {"cf": "real", "dc": "real", "avgfl": "real", "c": "real", "qf": 1}),
                requires=["self.cf > 0", "self.dc >= 1", "self.avgfl > 0", "self.c > 0", "self.cf <= self.dc * 1000"],
@@ -134,3 +135,51 @@ def register(R, tier="quick"):
                requires=["self.cf > 0", "self.fl >= self.cf"],
                harness=H, ensures=["s <= bq"], timeout_ms=3000,
                note="known finding: DFree's bound is not an upper bound (scores may be negative)")
+
+
+def register_stats(R):
+    """C09: collection statistics come from the PARENT searcher (layout independence), block statistics from the segment."""
+    from pyvc.theories.trace import Recorder
+    from pyvc.values import PyDict
+
+    def mk_env(I):
+        parent = Recorder("parent", returns={"idf": z3.Real("idf"), "avg_field_length": z3.Real("avgfl"),
+                                            "frequency": z3.Real("cf"), "doc_count_all": z3.Real("dc"), "field_length": z3.Real("fl")})
+        ti = Recorder("terminfo", returns={"max_weight": z3.Real("maxw"), "min_length": z3.Real("minlen")})
+        field = Recorder("field", attrs={"scorable": True})
+        searcher = Recorder("searcher", attrs={"schema": PyDict({"f": field})},
+                            returns={"get_parent": parent, "term_info": ti, "idf": z3.Real("seg_idf"),
+                                     "avg_field_length": z3.Real("seg_avgfl"), "frequency": z3.Real("seg_cf"),
+                                     "doc_count_all": z3.Real("seg_dc"), "field_length": z3.Real("seg_fl")})
+        I.assume(z3.And(z3.Real("idf") > 0, z3.Real("avgfl") > 0, z3.Real("maxw") > 0, z3.Real("minlen") > 0,
+                        z3.Real("cf") > 0, z3.Real("dc") >= 1, z3.Real("fl") >= z3.Real("cf")))
+        return searcher
+    NOSEG = ["count_events('searcher.idf') == 0", "count_events('searcher.avg_field_length') == 0",
+             "count_events('searcher.frequency') == 0", "count_events('searcher.doc_count_all') == 0",
+             "count_events('searcher.field_length') == 0", "count_events('searcher.get_parent') == 1"]
+    R.contract(S + ":BM25FScorer.__init__", props=["C09"],
+               setup=lambda I: {"self": Obj(I.repo.klass(S, "BM25FScorer")), "searcher": mk_env(I), "fieldname": "f", "text": "t",
+                                "B": z3.Real("B"), "K1": z3.Real("K1")},
+               requires=["0 <= B <= 1", "K1 >= 0"],
+               ensures=NOSEG + ["count_events('parent.idf') == 1", "count_events('parent.avg_field_length') == 1",
+                                lambda I, env: env["self"].fields["idf"] == z3.Real("idf"),
+                                lambda I, env: env["self"].fields["avgfl"] == z3.Real("avgfl")],
+               canaries=[Canary("avgfl-from-segment", "self.avgfl = parent.avg_field_length(fieldname) or 1",
+                                "self.avgfl = searcher.avg_field_length(fieldname) or 1")],
+               note="BM25F: idf and average field length are read from the parent (whole-index) searcher, never from the "
+                    "segment searcher: scores do not depend on how documents are split into segments")
+    R.contract(S + ":PL2Scorer.__init__", props=["C09"],
+               setup=lambda I: {"self": Obj(I.repo.klass(S, "PL2Scorer")), "searcher": mk_env(I), "fieldname": "f", "text": "t",
+                                "c": z3.Real("c")},
+               requires=["c > 0"],
+               ensures=NOSEG + ["count_events('parent.frequency') == 1", "count_events('parent.doc_count_all') == 1",
+                                "count_events('parent.avg_field_length') == 1"],
+               note="PL2: cf, doc count and average field length come from the parent searcher")
+    R.contract(S + ":DFreeScorer.__init__", props=["C09"],
+               setup=lambda I: {"self": Obj(I.repo.klass(S, "DFreeScorer")), "searcher": mk_env(I), "fieldname": "f", "text": "t"},
+               ensures=NOSEG + ["count_events('parent.frequency') == 1", "count_events('parent.field_length') == 1"],
+               note="DFree: cf and total field length come from the parent searcher (and the methods exist)")
+    R.contract(S + ":TF_IDF.scorer", props=["C09"],
+               setup=lambda I: {"self": Obj(I.repo.klass(S, "TF_IDF")), "searcher": mk_env(I), "fieldname": "f", "text": "t"},
+               ensures=NOSEG + ["count_events('parent.idf') == 1"],
+               note="TF_IDF: idf from the parent searcher")
